@@ -504,7 +504,7 @@ def main():
     nev += defects_stream(ck)
     # sparse storage / kernel stream (tools/c01_sparse.py): command sequences on compressed_vector / compressed_matrix,
     # extracted model (C01SparseExec.v) vs harness/c01_sparse.cpp, values and stored index structure compared exactly
-    nsp = SP.stream(ck, random.Random(ck.rng.getrandbits(48)), 1200 if thorough else 300)
+    nsp = SP.stream(ck, random.Random(ck.rng.getrandbits(48)), 3000 if thorough else 600)
     nev += nsp
     # corpus
     cdir = os.path.join(ROOT, "corpus", PID)
